@@ -78,6 +78,7 @@ type Scenario struct {
 	// The model is the same either way: a realm that exists from the start and
 	// one created on first use are both init_realm.
 	Template bool `json:"template,omitempty"`
+	Debug    bool `json:"debug,omitempty"` // Config.Debug: extra logging only, behaviour must not depend on it
 	TplFrom  int  `json:"tpl_from,omitempty"` // with Template: realms with index >= TplFrom come from the template (0 = all of them)
 }
 
